@@ -2,6 +2,7 @@ package eng
 
 import (
 	"fmt"
+	"os"
 	"go/constant"
 	"go/token"
 	"go/types"
@@ -175,6 +176,22 @@ func (e *Engine) runInstrs(st *State, b *ssa.BasicBlock, i int, prev *ssa.BasicB
 				e.runBlock(st, b.Succs[1], b, ret)
 				return
 			}
+			// the condition (or its negation) is already part of the path condition
+			if st.knows(e.tb, c) {
+				e.runBlock(st, b.Succs[0], b, ret)
+				return
+			}
+			if st.knows(e.tb, e.tb.Not(c)) {
+				e.runBlock(st, b.Succs[1], b, ret)
+				return
+			}
+			if os.Getenv("GOVC_TRACE") != "" && e.logOff == 0 {
+				cs := c.String()
+				if len(cs) > 120 {
+					cs = cs[:120]
+				}
+				fmt.Fprintf(os.Stderr, "FORK depth=%d %s block %d (%s) cond=%s\n", len(st.Frames), st.top().Fn.Name(), b.Index, posStr(e.Fset, x.Cond.Pos()), cs)
+			}
 			st2 := st.clone()
 			e.branch(func() {
 				e.assume(st2, c)
@@ -325,7 +342,13 @@ func (e *Engine) step(st *State, in ssa.Instruction, prev *ssa.BasicBlock) {
 	case *ssa.ChangeType:
 		fr.Regs[x] = e.get(st, x.X)
 	case *ssa.ChangeInterface:
-		fr.Regs[x] = e.get(st, x.X)
+		v := e.get(st, x.X)
+		if v.ann("") == nil {
+			if it, ok := x.X.Type().Underlying().(*types.Interface); ok && it.NumMethods() > 0 {
+				v = v.withAnn("", &IfaceBoundX{Static: x.X.Type()})
+			}
+		}
+		fr.Regs[x] = v
 	case *ssa.Convert:
 		fr.Regs[x] = e.convert(st, x)
 	case *ssa.MakeSlice:
@@ -632,6 +655,13 @@ func (e *Engine) valEq(st *State, a, b Val, T types.Type) *Term {
 		return tb.Eq(a.slArr(), tb.Int(0))
 	case *types.Interface:
 		_ = u
+		// comparison with the nil interface: the tag decides (tag == 0 implies payload == 0 by well-formedness)
+		if isZeroVal(a) {
+			return tb.Eq(b.ifTag(), tb.Int(0))
+		}
+		if isZeroVal(b) {
+			return tb.Eq(a.ifTag(), tb.Int(0))
+		}
 		return tb.And(tb.Eq(a.ifTag(), b.ifTag()), tb.Eq(a.ifVal(), b.ifVal()))
 	case *types.Pointer:
 		pa, pb := a.ann(""), b.ann("")
@@ -979,6 +1009,13 @@ func (e *Engine) typeAssert(st *State, x *ssa.TypeAssert) Val {
 				res = e.zeroVal(AT)
 			}
 		}
+	} else if bx, isB := v.ann("").(*IfaceBoundX); isB && !toIface && !types.Implements(AT, bx.Static.Underlying().(*types.Interface)) {
+		// the dynamic type implements bx.Static; AT does not: the assertion fails
+		ok = tb.False()
+		res = e.zeroVal(AT)
+	} else if bx, isB := v.ann("").(*IfaceBoundX); isB && toIface && types.Implements(bx.Static, AT.Underlying().(*types.Interface)) {
+		ok = tb.Neq(v.ifTag(), tb.Int(0))
+		res = v
 	} else if toIface {
 		it := AT.Underlying().(*types.Interface)
 		if it.NumMethods() == 0 {
